@@ -355,6 +355,7 @@ def gen_c10(rng, n, thorough=False):
                 steps.append(cmd("abort"))
         scs.append(scenario(k, steps, framing=framing, queue=queue, max_timeouts=maxto,
                             decode=rng.choice(DECODES), tag="c10-random"))
+    scs += gen_cut_frame_then_reconnect(rng, cuts=(3, 7, 9), tagp="c10")
     # a peer that keeps sending frames which are not the reply must not keep a request pending
     for timeout in (10, 100):
         for period in (timeout // 2, timeout - 1, 3):
@@ -607,6 +608,9 @@ def gen_c05_client(rng, thorough=False):
             steps = [cmd("enable"), dict(st)] + [dict(b) for b in base] + [deliver(n) for n in pat]
             steps += [dict(st2), reply(good_reply(rng, st2), unit=1)]
             scs.append(scenario(len(scs), steps, tag="c05-client-chunking"))
+    scs += gen_cut_frame_then_reconnect(rng, tagp="c05-client")
+    for i, x in enumerate(scs):
+        x["id"] = i
     # malformed headers in place of / after the reply
     bad = {"proto": [0, 0, 0, 1, 0, 3, 1, 3, 0], "len0": [0, 0, 0, 0, 0, 0, 1, 3, 0],
            "len255": [0, 0, 0, 0, 0, 255, 1] + [3] * 254, "len65535": [0, 0, 0, 0, 255, 255, 1, 3]}
@@ -862,4 +866,26 @@ def gen_c14(rng, thorough=False):
                     steps.append(cmd("enable"))
             scs.append(scenario(len(scs), steps, mode="task", retry=(rmin, rmax), max_timeouts=1,
                                 tag=f"c14-{rmin}-{rmax}-{pattern}"))
+    return scs
+
+
+def gen_cut_frame_then_reconnect(rng, cuts=(1, 3, 6, 7, 8, 9, 10), tagp="cut"):
+    """a reply is cut off by the end of the connection (inside the header, exactly after it, inside the body); the
+    next connection must start clean: its timely replies are framed from their first byte"""
+    scs = []
+    for cut in cuts:
+        for how in ("eof", "rerr"):
+            for while_ in ("await", "idle"):
+                steps = [cmd("enable")]
+                st = submit(1, 3, 1, 0, 4, (), 100)
+                pdu = good_reply(rng, st)
+                if while_ == "await":
+                    steps += [st, reply(pdu, unit=1, hold=True), deliver(cut), {"op": how, "kind": "ConnectionReset"}]
+                else:
+                    steps += [reply(pdu, unit=1, hold=True), deliver(cut), {"op": how, "kind": "ConnectionReset"}]
+                steps.append(cmd("new_conn"))
+                for i in range(3):
+                    st2 = rand_request(rng, 10 + i, timeout=100, unit=1)
+                    steps += [st2, tick(5), reply(good_reply(rng, st2), unit=1)]
+                scs.append(scenario(len(scs), steps, tag=f"{tagp}-frame-cut@{cut}-{how}-{while_}-then-reconnect"))
     return scs
